@@ -251,18 +251,20 @@ def execField (B : Build) (fld op : String) (args : List String) : String :=
     | "neg", [a] => match fe a with | some x => out (fneg F.m x) | _ => "bad-op"
     | "square", [a] => match fe a with | some x => out (fsq F.m x) | _ => "bad-op"
     | "double", [a] => match fe a with | some x => out (fadd F.m x x) | _ => "bad-op"
-    | "inv", [a] => match fe a with | some x => if x == 0 then "none" else out (finv F.m x) | _ => "bad-op"
+    | "inv", [a] => match fe a with
+        | some x => (match F.inverse x with | some y => out y | none => "none") | _ => "bad-op"
     | "pow", [a, ls] => match fe a, parseLimbs ls with
         | some x, some l => out (F.powLimbs x l) | _, _ => "bad-op"
     | "power", [a, ls] => match fe a, parseLimbs ls with
-        | some x, some l => out (F.powLimbs x l) | _, _ => "bad-op"
+        | some x, some l => out (F.power x l) | _, _ => "bad-op"
     | "sum", [as] => match (if as == "-" then some [] else (as.splitOn ",").mapM fe) with
         | some xs => out (F.sum xs) | none => "bad-op"
     | "product", [as] => match (if as == "-" then some [] else (as.splitOn ",").mapM fe) with
         | some xs => out (F.product xs) | none => "bad-op"
     | "select", [a, b, c] => match fe a, fe b with
-        | some x, some y => out (if c == "1" then y else x) | _, _ => "bad-op"
-    | "cteq", [a, b] => match fe a, fe b with | some x, some y => boolStr (x == y) | _, _ => "bad-op"
+        | some x, some y => out (F.selectLimbs (if B.name == "min" then 32 else 64) x y (c == "1")) | _, _ => "bad-op"
+    | "cteq", [a, b] => match fe a, fe b with
+        | some x, some y => boolStr (F.ctEq (if B.name == "min" then 32 else 64) x y) | _, _ => "bad-op"
     | "eq", [a, b] => match fe a, fe b with | some x, some y => boolStr (x == y) | _, _ => "bad-op"
     | "from_le_mod", [h] => match parseHex h with | some bs => out (F.fromLeBytesModOrder bs) | none => "bad-op"
     | "from_be_mod", [h] => match parseHex h with | some bs => out (F.fromBeBytesModOrder bs) | none => "bad-op"
